@@ -318,7 +318,7 @@ class CallMixin:
             if found:
                 from .model import class_methods
 
-                meths = class_methods(found[1])
+                meths = class_methods(found[1], raw=True)
                 if attr in meths:
                     mcv = CV("fn", found[0], f"{anc}.{attr}", meths[attr], None, cls=anc)
                     a = [self.env.get("self", Val(kinds=FS({self.cls})))] + (args[1:] if attr == "__new__" else args)
@@ -478,7 +478,7 @@ class CallMixin:
 
         found = self.eng.find_class(owner)
         here = f"{self.cv.label()}:{getattr(node, 'lineno', 0)}"
-        for mname, fn in sorted(class_methods(found[1]).items()):
+        for mname, fn in sorted(class_methods(found[1], raw=True).items()):
             if mname in self.eng.g.rules:
                 mcv = CV("fn", found[0], f"{owner}.{mname}", fn, None, cls=owner)
                 a = [of_kind(owner), Val(rules=FS({mname}))]
